@@ -2,7 +2,8 @@
   Model of internal/ast/compiler/disjunctions_with_null_to_optional.go.
   `OnDisjunction` REPLACES the default recursion: the branches of a disjunction are never visited,
   neither when the disjunction is rewritten nor when it is left alone (see Visitor.lean).
-  `NonNullTypes()[0]` panics on `null | null`.
+  `null | null` is returned unchanged (before /repo fix 30da046 `NonNullTypes()[0]` panicked:
+  `hookPreFix`).
 -/
 import Cog.Passes.Visitor
 namespace Cog.Passes.DisjunctionWithNullToOptional
@@ -11,8 +12,17 @@ open Cog.IR Cog.Passes
 def hook : DisjHook := fun bs info m =>
   if bs.length != 2 || !hasNullType bs then .ok (.disj bs info m)
   else match nonNullTypes bs with
+    | [] => .ok (.disj bs info m)          -- `null | null`: returned unchanged (fix 30da046)
+    | t :: _ => .ok (setNullable true t)
+
+/-- the hook before fix 30da046: `NonNullTypes()[0]` panicked on `null | null` -/
+def hookPreFix : DisjHook := fun bs info m =>
+  if bs.length != 2 || !hasNullType bs then .ok (.disj bs info m)
+  else match nonNullTypes bs with
     | [] => .panic "DisjunctionWithNullToOptional: NonNullTypes()[0]"
     | t :: _ => .ok (setNullable true t)
+
+def runPreFix (ss : Schemas) : Outcome Schemas := runDisjPass (fun _ _ => hookPreFix) ss
 
 def run (ss : Schemas) : Outcome Schemas := runDisjPass (fun _ _ => hook) ss
 
